@@ -46,10 +46,17 @@ def parseStatus : SExp → Option CloseStatus
   | .atom "none" => some .notCalled
   | _ => none
 
-def parseObs (x : SExp) : Option Obs := do
-  match x with
-  | .list [.list (.atom "accepted" :: acc), .list (.atom "batches" :: bs), .list [.atom "close", st],
-           .list [.atom "left", c, b], .list [.atom "inflight", i]] =>
+def parseSnap : SExp → Option Snap
+  | .list [.atom "snap", .list (.atom "acc" :: acc), .list [.atom "chan", c], .list [.atom "hand", h],
+           .list [.atom "buf", b], .list [.atom "written", w], .list (.atom "blocked" :: bl)] => do
+    pure { acc := (← acc.mapM? SExp.nat?), chan := (← c.nat?), hand := (← h.nat?), buf := (← b.nat?),
+           written := (← w.nat?), blocked := (← bl.mapM? SExp.nat?) }
+  | _ => none
+
+/-- The observation; `true` in the second component: it carries a `(snaps …)` element ("channel
+    full" scenarios: the script holds the batching loop up, or the writer has a chosen capacity). -/
+def parseObs (x : SExp) : Option (Obs × Bool) := do
+  let core (acc bs : List SExp) (st c b i : SExp) : Option Obs := do
     let accepted ← acc.mapM? SExp.nat?
     let batches ← bs.mapM? fun b => do
       (← b.list?).mapM? fun
@@ -57,7 +64,29 @@ def parseObs (x : SExp) : Option Obs := do
         | _ => none
     pure { accepted, batches, status := (← parseStatus st), leftChan := (← c.nat?), leftBuf := (← b.nat?),
            inflight := (← i.nat?) }
+  match x with
+  | .list [.list (.atom "accepted" :: acc), .list (.atom "batches" :: bs), .list [.atom "close", st],
+           .list [.atom "left", c, b], .list [.atom "inflight", i]] =>
+    pure ((← core acc bs st c b i), false)
+  | .list [.list (.atom "accepted" :: acc), .list (.atom "batches" :: bs), .list [.atom "close", st],
+           .list [.atom "left", c, b], .list [.atom "inflight", i], .list (.atom "snaps" :: sn)] =>
+    let o ← core acc bs st c b i
+    pure ({ o with snaps := (← sn.mapM? parseSnap) }, true)
   | _ => none
+
+/-- What each producer has been told to publish BEFORE each `(await-blocked)` of the script. -/
+def totalsAtSnaps (np : Nat) (ops : List SExp) : Option (List (List Nat)) := do
+  let mut tot : List Nat := List.replicate np 0
+  let mut out : Array (List Nat) := #[]
+  for o in ops do
+    match o with
+    | .list [.atom "pub", p, n] | .list [.atom "spawn", p, n, _] =>
+        let p ← p.nat?
+        let n ← n.nat?
+        if p < np then tot := tot.set p (tot.getD p 0 + n) else none
+    | .list [.atom "await-blocked"] => out := out.push tot
+    | _ => pure ()
+  pure out.toList
 
 def moves (n : Nat) : List Step := (List.replicate n [Step.batchRecv, Step.batchPush]).flatten
 
@@ -80,10 +109,118 @@ def schedOf (totals : List Nat) (o : Obs) : Option (List Step) := do
   | .hung => pure (sched ++ [.writerSelect, .close, .batchDone, .broadcast, .writerPop])
   | .notCalled => pure sched
 
+/-- Reconstruction for "channel full" observations: a schedule cut into segments, a snapshot of
+    the model's state after each segment but the last.
+
+    The publication order is read off the observation: the producers of the delivered events in
+    delivery order, then what was never written. `pub` events of it have been published, `mov` of
+    them pushed into the buffer, `hand` says whether the batching loop holds the next one.
+    A snapshot that says `written = W, buf = b, hand = h, chan = n, acc = a` is reached by
+    finishing the batches that make up W, moving b more events into the buffer, h into the hand and
+    publishing up to Σa — every step must be enabled in the model (`runStrict`), so calls that
+    returned while the channel was full, or more accepted events than channel + hand + buffer +
+    written account for, are not reproducible and rejected. -/
+structure Recon where
+  pub : Nat := 0
+  mov : Nat := 0
+  hand : Bool := false
+  writing : Bool := false
+  seg : Array Step := #[]
+
+def Recon.emit (r : Recon) (st : Step) : Recon := { r with seg := r.seg.push st }
+
+/-- Move events into the buffer until `e` of them are there. -/
+def Recon.moveTo (order : Array Nat) (e : Nat) (r : Recon) : Recon := Id.run do
+  let mut r := r
+  for _ in [0:order.size + 1] do
+    if r.mov < e then
+      if r.hand then
+        r := { r.emit .batchPush with hand := false, mov := r.mov + 1 }
+      else
+        if r.pub == r.mov then
+          r := { r.emit (.publish (order.getD r.pub 0)) with pub := r.pub + 1 }
+        r := { (r.emit .batchRecv).emit .batchPush with mov := r.mov + 1 }
+  return r
+
+def Recon.publishTo (order : Array Nat) (t : Nat) (r : Recon) : Recon := Id.run do
+  let mut r := r
+  for _ in [0:order.size + 1] do
+    if r.pub < t then
+      r := { r.emit (.publish (order.getD r.pub 0)) with pub := r.pub + 1 }
+  return r
+
+def Recon.toSnap (order : Array Nat) (sn : Snap) (r : Recon) : Recon :=
+  let r := r.moveTo order (sn.written + sn.buf)
+  let r :=
+    if sn.hand ≥ 1 && !r.hand then
+      let r := if r.pub == r.mov then { r.emit (.publish (order.getD r.pub 0)) with pub := r.pub + 1 } else r
+      { r.emit .batchRecv with hand := true }
+    else r
+  r.publishTo order sn.acc.sum
+
+/-- Segments (each ends in a snapshot, except the last one) for an observation with snapshots. -/
+def segmentsOf (totals : List Nat) (o : Obs) : Option (List (List Step)) := do
+  let shape := o.batches.map fun b => b.map (·.1)
+  let written := shape.flatten
+  -- publication order: delivered, then the never-written rest producer by producer
+  let mut order : Array Nat := written.toArray
+  let mut p := 0
+  for t in totals do
+    let w := written.countP (· == p)
+    if w > t then none
+    order := order ++ (List.replicate (t - w) p).toArray
+    p := p + 1
+  let mut r : Recon := {}
+  let mut segs : Array (List Step) := #[]
+  let mut snaps := o.snaps
+  let mut done := 0          -- events in the batches processed so far
+  for b in shape do
+    -- snapshots taken before this batch was handed to the write function
+    for sn in snaps do
+      if sn.written == done then
+        r := r.toSnap order sn
+        segs := segs.push r.seg.toList
+        r := { r with seg := #[] }
+    snaps := snaps.filter (·.written != done)
+    if r.writing then r := { r.emit .writeDone with writing := false }
+    done := done + b.length
+    r := r.moveTo order done
+    r := { (r.emit .writerSelect).emit .writerPop with writing := true }
+  for sn in snaps do
+    if sn.written == done then
+      r := r.toSnap order sn
+      segs := segs.push r.seg.toList
+      r := { r with seg := #[] }
+  snaps := snaps.filter (·.written != done)
+  if !snaps.isEmpty then none   -- a snapshot in the middle of a batch: not an observation of this harness
+  if r.writing then r := { r.emit .writeDone with writing := false }
+  r := r.moveTo order order.size
+  let tail : List Step := match o.status with
+    | .returned => [.close, .batchDone, .broadcast, .writerSelect, .closeReturn]
+    | .hung => [.writerSelect, .close, .batchDone, .broadcast, .writerPop]
+    | .notCalled => []
+  pure (segs.push (r.seg.toList ++ tail)).toList
+
+/-- Run the segments strictly; the model's snapshot after each segment but the last. -/
+def runSegments (c : Cfg) (np : Nat) (pendings : List (List Nat)) :
+    State → List (List Step) → Array Snap → Option (State × List Snap)
+  | s, [], acc => some (s, acc.toList)
+  | s, [seg], acc => do
+      let s' ← runStrict c s seg
+      pure (s', acc.toList)
+  | s, seg :: rest, acc => do
+      let s' ← runStrict c s seg
+      runSegments c np (pendings.drop 1) s' rest (acc.push (snapOf c s' np (pendings.headD [])))
+
 def statusOf (s : State) : String :=
   if s.closeCompleted then "returned"
   else if s.closed && !canProgress codeCfg s && lostWakeup s then "hung"
   else "none"
+
+def printSnap (sn : Snap) : SExp :=
+  .list [.atom "snap", .list (.atom "acc" :: sn.acc.map SExp.ofNat), .list [.atom "chan", .ofNat sn.chan],
+         .list [.atom "hand", .ofNat sn.hand], .list [.atom "buf", .ofNat sn.buf],
+         .list [.atom "written", .ofNat sn.written], .list (.atom "blocked" :: sn.blocked.map SExp.ofNat)]
 
 def printModel (prods : List Producer) (s : State) : SExp :=
   let acc := (List.range prods.length).map fun p => SExp.ofNat (countOf p s.pubs)
@@ -99,8 +236,8 @@ def printModel (prods : List Producer) (s : State) : SExp :=
 def lostCount (o : Obs) : Nat := o.accepted.foldl (· + ·) 0 - o.delivered.length
 
 /-- Which excluded hypothesis (known finding) explains a Spec failure, if any. -/
-def hypOf (prods : List Producer) (o : Obs) : String :=
-  if !safeOk codeCfg.batchMax prods o then "-"
+def hypOf (cap : Nat) (prods : List Producer) (o : Obs) : String :=
+  if !safeOk codeCfg.batchMax prods o || !handoverOk cap o then "-"
   else if o.status == .returned && o.inflight == 0 && !allDelivered o.accepted o.delivered && o.leftBuf == lostCount o
        && o.leftChan == 0 then
     "close_drops_buffered"
@@ -133,23 +270,44 @@ def processLine (line : String) : String :=
       match n.nat?, n'.nat?, a.nat?, b.nat? with
       | some n, some n', some a, some b => if n == n' then stormLine n a b else "REJECT:storm-size\t0\t-"
       | _, _, _, _ => "BADINPUT\t0\t-"
-    | some (.list [prodsX, .list (.atom "park" :: _), .list (.atom "script" :: ops)]), some implX =>
-      match parseProds prodsX with
-      | none => "BADINPUT\t0\t-"
-      | some prods =>
-        match scriptTotals prods.length ops, parseObs implX with
-        | some totals, some o =>
-          let spec := Spec codeCfg.batchMax prods o
-          let hyp := if spec then "-" else hypOf prods o
+    | some (.list (prodsX :: .list (.atom "park" :: _) :: .list (.atom "script" :: ops) :: more)), some implX =>
+      -- optional fourth element (cap N): the writer was built with that channel capacity
+      let capO : Option Nat := match more with
+        | [] => some codeCfg.cap
+        | [.list [.atom "cap", n]] => n.nat?
+        | _ => none
+      match parseProds prodsX, capO with
+      | some prods, some cap =>
+        let cfg : Cfg := { codeCfg with cap := cap }
+        match scriptTotals prods.length ops, parseObs implX, totalsAtSnaps prods.length ops with
+        | some totals, some (o, withSnaps), some atSnaps =>
+          let spec := Spec cfg.batchMax cfg.cap prods o
+          let hyp := if spec then "-" else hypOf cfg.cap prods o
           let model :=
-            match schedOf totals o with
-            | none => "REJECT:more-written-than-accepted"
-            | some sched =>
-              match runStrict codeCfg init sched with
-              | none => "REJECT:reconstructed-schedule-not-enabled"
-              | some s => toString (printModel prods s)
+            if !withSnaps then
+              match schedOf totals o with
+              | none => "REJECT:more-written-than-accepted"
+              | some sched =>
+                match runStrict cfg init sched with
+                | none => "REJECT:reconstructed-schedule-not-enabled"
+                | some s => toString (printModel prods s)
+            else if atSnaps.length != o.snaps.length then "REJECT:one-snapshot-per-await-blocked-expected"
+            else
+              -- who has a call outstanding at each snapshot: told to publish more than has returned
+              let pendings := (atSnaps.zip o.snaps).map fun (tot, sn) =>
+                (List.range prods.length).filter fun p => tot.getD p 0 > sn.acc.getD p 0
+              match segmentsOf totals o with
+              | none => "REJECT:more-written-than-accepted-or-snapshot-inside-a-batch"
+              | some segs =>
+                match runSegments cfg prods.length pendings init segs #[] with
+                | none => "REJECT:reconstructed-schedule-not-enabled"
+                | some (s, sns) =>
+                  match printModel prods s with
+                  | .list xs => toString (SExp.list (xs ++ [.list (.atom "snaps" :: sns.map printSnap)]))
+                  | x => toString x
           s!"{model}\t{if spec then 1 else 0}\t{hyp}"
-        | _, _ => s!"REJECT:unparsable-observation\t0\t-"
+        | _, _, _ => s!"REJECT:unparsable-observation\t0\t-"
+      | _, _ => "BADINPUT\t0\t-"
     | _, _ => "BADINPUT\t0\t-"
   | _ => "BADLINE\t0\t-"
 
